@@ -244,6 +244,7 @@ TReattach ==
     /\ LET t == Tr[l] m == M(t) IN
        /\ Reattach(m)
        /\ t.same_ptr = 1 /\ t.done = <<>>
+       /\ t.stale_ptrs = 0                      \* every function / out-of-order pointer was refreshed by the call
        /\ earliest'[m] = t.earliest /\ next'[m] = t.next /\ t.errno = 0
        /\ UNCHANGED <<suiteOf, plan, cfail>>
 
